@@ -1,71 +1,33 @@
-//! Verification models of the std containers ggrs uses as finite maps/sets.
-//! Association lists over `Vec`: same API subset and map semantics; iteration order is
-//! insertion order, optionally permuted nondeterministically (cfg ggrs_verif_permute).
+//! Verification models of the std containers ggrs uses as finite maps/sets (encoding rewrite R1).
+//!
+//! Finite-map semantics over a slot vector `Vec<Option<(K, V)>>`: `remove`/`retain` clear a slot,
+//! `insert` of a new key reuses the first free slot or appends. No element is ever moved, so the
+//! model checker never sees a `memmove` with a symbolic length (what makes `Vec::remove`,
+//! `Vec::retain` and the real hash/tree maps intractable for CBMC). Iteration order is slot order -
+//! an arbitrary but fixed order, as for a hash map with a fixed seed - or, under
+//! `--cfg ggrs_verif_permute`, a permutation chosen by the solver (sound over-approximation of
+//! every hash seed). `BTreeMap` iterates in ascending key order by selection.
 #![allow(dead_code)]
 use std::fmt;
 
+const PRESIZE: usize = 8;
+
 #[derive(Clone)]
 pub struct HashMap<K, V> {
-    items: Vec<(K, V)>,
+    slots: Vec<Option<(K, V)>>,
+    count: usize,
 }
 
 impl<K, V> Default for HashMap<K, V> {
-    fn default() -> Self { Self { items: Vec::new() } }
+    fn default() -> Self {
+        Self { slots: Vec::with_capacity(PRESIZE), count: 0 }
+    }
 }
 
 impl<K: fmt::Debug, V: fmt::Debug> fmt::Debug for HashMap<K, V> {
-    fn fmt(&self, f: &mut fmt::Formatter<'_>) -> fmt::Result { f.write_str("HashMap") }
-}
-
-#[cfg(not(ggrs_verif_permute))]
-pub struct Iter<'a, K, V>(std::slice::Iter<'a, (K, V)>);
-#[cfg(not(ggrs_verif_permute))]
-impl<'a, K, V> Iterator for Iter<'a, K, V> {
-    type Item = (&'a K, &'a V);
-    fn next(&mut self) -> Option<(&'a K, &'a V)> { match self.0.next() { Some((k, v)) => Some((k, v)), None => None } }
-}
-#[cfg(not(ggrs_verif_permute))]
-pub struct Values<'a, K, V>(std::slice::Iter<'a, (K, V)>);
-#[cfg(not(ggrs_verif_permute))]
-impl<'a, K, V> Iterator for Values<'a, K, V> {
-    type Item = &'a V;
-    fn next(&mut self) -> Option<&'a V> { match self.0.next() { Some((_, v)) => Some(v), None => None } }
-}
-#[cfg(not(ggrs_verif_permute))]
-pub struct ValuesMut<'a, K, V>(std::slice::IterMut<'a, (K, V)>);
-#[cfg(not(ggrs_verif_permute))]
-impl<'a, K, V> Iterator for ValuesMut<'a, K, V> {
-    type Item = &'a mut V;
-    fn next(&mut self) -> Option<&'a mut V> { match self.0.next() { Some((_, v)) => Some(v), None => None } }
-}
-#[cfg(ggrs_verif_permute)]
-pub struct Iter<'a, K, V>(std::vec::IntoIter<(&'a K, &'a V)>);
-#[cfg(ggrs_verif_permute)]
-impl<'a, K, V> Iterator for Iter<'a, K, V> {
-    type Item = (&'a K, &'a V);
-    fn next(&mut self) -> Option<(&'a K, &'a V)> { self.0.next() }
-}
-#[cfg(ggrs_verif_permute)]
-pub struct Values<'a, K, V>(std::vec::IntoIter<&'a V>);
-#[cfg(ggrs_verif_permute)]
-impl<'a, K, V> Iterator for Values<'a, K, V> {
-    type Item = &'a V;
-    fn next(&mut self) -> Option<&'a V> { self.0.next() }
-}
-#[cfg(ggrs_verif_permute)]
-pub struct ValuesMut<'a, K, V>(std::vec::IntoIter<&'a mut V>);
-#[cfg(ggrs_verif_permute)]
-impl<'a, K, V> Iterator for ValuesMut<'a, K, V> {
-    type Item = &'a mut V;
-    fn next(&mut self) -> Option<&'a mut V> { self.0.next() }
-}
-pub struct Keys<'a, K, V>(Iter<'a, K, V>);
-impl<'a, K, V> Iterator for Keys<'a, K, V> {
-    type Item = &'a K;
-    fn next(&mut self) -> Option<&'a K> { self.0.next().map(|(k, _)| k) }
-}
-impl<'a, K: fmt::Debug, V> fmt::Debug for Keys<'a, K, V> {
-    fn fmt(&self, f: &mut fmt::Formatter<'_>) -> fmt::Result { f.write_str("Keys") }
+    fn fmt(&self, f: &mut fmt::Formatter<'_>) -> fmt::Result {
+        f.write_str("HashMap")
+    }
 }
 
 fn permute<T>(v: &mut Vec<T>) {
@@ -76,7 +38,9 @@ fn permute<T>(v: &mut Vec<T>) {
         while i + 1 < n {
             let mut j = 0;
             while j + 1 < n - i {
-                if kani::any() { v.swap(j, j + 1); }
+                if kani::any() {
+                    v.swap(j, j + 1);
+                }
                 j += 1;
             }
             i += 1;
@@ -85,139 +49,425 @@ fn permute<T>(v: &mut Vec<T>) {
     let _ = v;
 }
 
+// ---------------------------------------------------------------- iterators (slot order)
+#[cfg(not(ggrs_verif_permute))]
+pub struct Iter<'a, K, V> {
+    slots: &'a [Option<(K, V)>],
+    i: usize,
+}
+#[cfg(not(ggrs_verif_permute))]
+impl<'a, K, V> Iterator for Iter<'a, K, V> {
+    type Item = (&'a K, &'a V);
+    fn next(&mut self) -> Option<(&'a K, &'a V)> {
+        // index-based on purpose: slice iterators compare raw pointers, which is costly for CBMC
+        while self.i < self.slots.len() {
+            let j = self.i;
+            self.i += 1;
+            if let Some((k, v)) = &self.slots[j] {
+                return Some((k, v));
+            }
+        }
+        None
+    }
+}
+#[cfg(not(ggrs_verif_permute))]
+pub struct ValuesMut<'a, K, V>(&'a mut [Option<(K, V)>]);
+#[cfg(not(ggrs_verif_permute))]
+impl<'a, K, V> Iterator for ValuesMut<'a, K, V> {
+    type Item = &'a mut V;
+    fn next(&mut self) -> Option<&'a mut V> {
+        loop {
+            let rest = std::mem::take(&mut self.0);
+            match rest.split_first_mut() {
+                Some((first, tail)) => {
+                    self.0 = tail;
+                    if let Some((_, v)) = first {
+                        return Some(v);
+                    }
+                }
+                None => return None,
+            }
+        }
+    }
+}
+#[cfg(ggrs_verif_permute)]
+pub struct Iter<'a, K, V>(std::vec::IntoIter<(&'a K, &'a V)>);
+#[cfg(ggrs_verif_permute)]
+impl<'a, K, V> Iterator for Iter<'a, K, V> {
+    type Item = (&'a K, &'a V);
+    fn next(&mut self) -> Option<(&'a K, &'a V)> {
+        self.0.next()
+    }
+}
+#[cfg(ggrs_verif_permute)]
+pub struct ValuesMut<'a, K, V>(std::vec::IntoIter<&'a mut V>, std::marker::PhantomData<&'a K>);
+#[cfg(ggrs_verif_permute)]
+impl<'a, K, V> Iterator for ValuesMut<'a, K, V> {
+    type Item = &'a mut V;
+    fn next(&mut self) -> Option<&'a mut V> {
+        self.0.next()
+    }
+}
+pub struct Keys<'a, K, V>(Iter<'a, K, V>);
+impl<'a, K, V> Iterator for Keys<'a, K, V> {
+    type Item = &'a K;
+    fn next(&mut self) -> Option<&'a K> {
+        self.0.next().map(|(k, _)| k)
+    }
+}
+impl<'a, K: fmt::Debug, V> fmt::Debug for Keys<'a, K, V> {
+    fn fmt(&self, f: &mut fmt::Formatter<'_>) -> fmt::Result {
+        f.write_str("Keys")
+    }
+}
+pub struct Values<'a, K, V>(Iter<'a, K, V>);
+impl<'a, K, V> Iterator for Values<'a, K, V> {
+    type Item = &'a V;
+    fn next(&mut self) -> Option<&'a V> {
+        self.0.next().map(|(_, v)| v)
+    }
+}
+pub struct IntoIter<K, V>(std::vec::IntoIter<Option<(K, V)>>);
+impl<K, V> Iterator for IntoIter<K, V> {
+    type Item = (K, V);
+    fn next(&mut self) -> Option<(K, V)> {
+        loop {
+            match self.0.next() {
+                Some(Some(kv)) => return Some(kv),
+                Some(None) => {}
+                None => return None,
+            }
+        }
+    }
+}
+
 impl<K: PartialEq, V> HashMap<K, V> {
-    pub fn new() -> Self { Self { items: Vec::new() } }
-    pub fn len(&self) -> usize { self.items.len() }
-    pub fn is_empty(&self) -> bool { self.items.is_empty() }
-    pub fn clear(&mut self) { self.items.clear() }
+    pub fn new() -> Self {
+        Self::default()
+    }
+    pub fn len(&self) -> usize {
+        self.count
+    }
+    pub fn is_empty(&self) -> bool {
+        self.count == 0
+    }
+    pub fn clear(&mut self) {
+        let mut i = 0;
+        while i < self.slots.len() {
+            self.slots[i] = None;
+            i += 1;
+        }
+        self.count = 0;
+    }
     fn pos(&self, k: &K) -> Option<usize> {
         let mut i = 0;
-        while i < self.items.len() {
-            if self.items[i].0 == *k { return Some(i); }
+        while i < self.slots.len() {
+            if let Some((kk, _)) = &self.slots[i] {
+                if *kk == *k {
+                    return Some(i);
+                }
+            }
             i += 1;
         }
         None
     }
+    fn free_slot(&mut self) -> usize {
+        let mut i = 0;
+        while i < self.slots.len() {
+            if self.slots[i].is_none() {
+                return i;
+            }
+            i += 1;
+        }
+        self.slots.push(None);
+        self.slots.len() - 1
+    }
     pub fn insert(&mut self, k: K, v: V) -> Option<V> {
         match self.pos(&k) {
-            Some(i) => Some(std::mem::replace(&mut self.items[i].1, v)),
-            None => { self.items.push((k, v)); None }
+            Some(i) => match self.slots[i].replace((k, v)) {
+                Some((_, old)) => Some(old),
+                None => None,
+            },
+            None => {
+                let i = self.free_slot();
+                self.slots[i] = Some((k, v));
+                self.count += 1;
+                None
+            }
         }
     }
-    pub fn get(&self, k: &K) -> Option<&V> { self.pos(k).map(|i| &self.items[i].1) }
+    pub fn get(&self, k: &K) -> Option<&V> {
+        match self.pos(k) {
+            Some(i) => match &self.slots[i] {
+                Some((_, v)) => Some(v),
+                None => None,
+            },
+            None => None,
+        }
+    }
     pub fn get_mut(&mut self, k: &K) -> Option<&mut V> {
-        match self.pos(k) { Some(i) => Some(&mut self.items[i].1), None => None }
+        match self.pos(k) {
+            Some(i) => match &mut self.slots[i] {
+                Some((_, v)) => Some(v),
+                None => None,
+            },
+            None => None,
+        }
     }
-    pub fn contains_key(&self, k: &K) -> bool { self.pos(k).is_some() }
-    pub fn remove(&mut self, k: &K) -> Option<V> { self.pos(k).map(|i| self.items.remove(i).1) }
-    pub fn remove_entry(&mut self, k: &K) -> Option<(K, V)> { self.pos(k).map(|i| self.items.remove(i)) }
+    pub fn contains_key(&self, k: &K) -> bool {
+        self.pos(k).is_some()
+    }
+    pub fn remove_entry(&mut self, k: &K) -> Option<(K, V)> {
+        match self.pos(k) {
+            Some(i) => {
+                self.count -= 1;
+                self.slots[i].take()
+            }
+            None => None,
+        }
+    }
+    pub fn remove(&mut self, k: &K) -> Option<V> {
+        self.remove_entry(k).map(|(_, v)| v)
+    }
     pub fn retain<F: FnMut(&K, &mut V) -> bool>(&mut self, mut f: F) {
-        self.items.retain_mut(|(k, v)| f(k, v));
+        let mut i = 0;
+        while i < self.slots.len() {
+            let keep = match &mut self.slots[i] {
+                Some((k, v)) => f(k, v),
+                None => true,
+            };
+            if !keep {
+                self.slots[i] = None;
+                self.count -= 1;
+            }
+            i += 1;
+        }
     }
     #[cfg(not(ggrs_verif_permute))]
-    pub fn iter(&self) -> Iter<'_, K, V> { Iter(self.items.iter()) }
+    pub fn iter(&self) -> Iter<'_, K, V> {
+        Iter { slots: &self.slots[..], i: 0 }
+    }
     #[cfg(not(ggrs_verif_permute))]
-    pub fn keys(&self) -> Keys<'_, K, V> { Keys(self.iter()) }
-    #[cfg(not(ggrs_verif_permute))]
-    pub fn values(&self) -> Values<'_, K, V> { Values(self.items.iter()) }
-    #[cfg(not(ggrs_verif_permute))]
-    pub fn values_mut(&mut self) -> ValuesMut<'_, K, V> { ValuesMut(self.items.iter_mut()) }
-
+    pub fn values_mut(&mut self) -> ValuesMut<'_, K, V> {
+        ValuesMut(&mut self.slots[..])
+    }
     #[cfg(ggrs_verif_permute)]
     pub fn iter(&self) -> Iter<'_, K, V> {
-        let mut v: Vec<(&K, &V)> = Vec::with_capacity(self.items.len());
-        for (k, val) in self.items.iter() { v.push((k, val)); }
+        let mut v: Vec<(&K, &V)> = Vec::with_capacity(PRESIZE);
+        for s in self.slots.iter() {
+            if let Some((k, val)) = s {
+                v.push((k, val));
+            }
+        }
         permute(&mut v);
         Iter(v.into_iter())
     }
     #[cfg(ggrs_verif_permute)]
-    pub fn keys(&self) -> Keys<'_, K, V> { Keys(self.iter()) }
-    #[cfg(ggrs_verif_permute)]
-    pub fn values(&self) -> Values<'_, K, V> {
-        let mut v: Vec<&V> = Vec::with_capacity(self.items.len());
-        for (_, val) in self.items.iter() { v.push(val); }
-        permute(&mut v);
-        Values(v.into_iter())
-    }
-    #[cfg(ggrs_verif_permute)]
     pub fn values_mut(&mut self) -> ValuesMut<'_, K, V> {
-        let mut v: Vec<&mut V> = Vec::with_capacity(self.items.len());
-        for (_, val) in self.items.iter_mut() { v.push(val); }
+        let mut v: Vec<&mut V> = Vec::with_capacity(PRESIZE);
+        for s in self.slots.iter_mut() {
+            if let Some((_, val)) = s {
+                v.push(val);
+            }
+        }
         permute(&mut v);
-        ValuesMut(v.into_iter())
+        ValuesMut(v.into_iter(), std::marker::PhantomData)
     }
-    pub fn entry(&mut self, k: K) -> Entry<'_, K, V> { Entry { map: self, key: k } }
+    pub fn keys(&self) -> Keys<'_, K, V> {
+        Keys(self.iter())
+    }
+    pub fn values(&self) -> Values<'_, K, V> {
+        Values(self.iter())
+    }
+    pub fn entry(&mut self, k: K) -> Entry<'_, K, V> {
+        Entry { map: self, key: k }
+    }
 }
 
-pub struct Entry<'a, K, V> { map: &'a mut HashMap<K, V>, key: K }
+pub struct Entry<'a, K, V> {
+    map: &'a mut HashMap<K, V>,
+    key: K,
+}
 impl<'a, K: PartialEq, V> Entry<'a, K, V> {
     pub fn or_insert_with<F: FnOnce() -> V>(self, f: F) -> &'a mut V {
         let i = match self.map.pos(&self.key) {
             Some(i) => i,
-            None => { self.map.items.push((self.key, f())); self.map.items.len() - 1 }
+            None => {
+                let i = self.map.free_slot();
+                self.map.slots[i] = Some((self.key, f()));
+                self.map.count += 1;
+                i
+            }
         };
-        &mut self.map.items[i].1
+        match &mut self.map.slots[i] {
+            Some((_, v)) => v,
+            None => unreachable!(),
+        }
     }
-    pub fn or_default(self) -> &'a mut V where V: Default { self.or_insert_with(V::default) }
+    pub fn or_default(self) -> &'a mut V
+    where
+        V: Default,
+    {
+        self.or_insert_with(V::default)
+    }
 }
 
 impl<'a, K: PartialEq, V> IntoIterator for &'a HashMap<K, V> {
     type Item = (&'a K, &'a V);
     type IntoIter = Iter<'a, K, V>;
-    fn into_iter(self) -> Self::IntoIter { self.iter() }
+    fn into_iter(self) -> Self::IntoIter {
+        self.iter()
+    }
 }
 impl<K: PartialEq, V> IntoIterator for HashMap<K, V> {
     type Item = (K, V);
-    type IntoIter = std::vec::IntoIter<(K, V)>;
-    fn into_iter(self) -> Self::IntoIter { let mut v = self.items; permute(&mut v); v.into_iter() }
+    type IntoIter = IntoIter<K, V>;
+    fn into_iter(self) -> Self::IntoIter {
+        let mut v = self.slots;
+        permute(&mut v);
+        IntoIter(v.into_iter())
+    }
 }
 
-#[derive(Clone, Default)]
-pub struct HashSet<K> { items: Vec<K> }
+// ---------------------------------------------------------------- HashSet
+#[derive(Clone)]
+pub struct HashSet<K> {
+    slots: Vec<Option<K>>,
+    count: usize,
+}
+impl<K> Default for HashSet<K> {
+    fn default() -> Self {
+        Self { slots: Vec::with_capacity(PRESIZE), count: 0 }
+    }
+}
 impl<K: PartialEq> HashSet<K> {
-    pub fn new() -> Self { Self { items: Vec::new() } }
-    pub fn len(&self) -> usize { self.items.len() }
+    pub fn new() -> Self {
+        Self::default()
+    }
+    pub fn len(&self) -> usize {
+        self.count
+    }
+    fn pos(&self, k: &K) -> Option<usize> {
+        let mut i = 0;
+        while i < self.slots.len() {
+            if let Some(kk) = &self.slots[i] {
+                if *kk == *k {
+                    return Some(i);
+                }
+            }
+            i += 1;
+        }
+        None
+    }
+    pub fn contains(&self, k: &K) -> bool {
+        self.pos(k).is_some()
+    }
     pub fn insert(&mut self, k: K) -> bool {
-        if self.items.iter().any(|x| *x == k) { false } else { self.items.push(k); true }
+        if self.pos(&k).is_some() {
+            return false;
+        }
+        let mut i = 0;
+        while i < self.slots.len() {
+            if self.slots[i].is_none() {
+                break;
+            }
+            i += 1;
+        }
+        if i == self.slots.len() {
+            self.slots.push(None);
+        }
+        self.slots[i] = Some(k);
+        self.count += 1;
+        true
     }
     pub fn remove(&mut self, k: &K) -> bool {
+        match self.pos(k) {
+            Some(i) => {
+                self.slots[i] = None;
+                self.count -= 1;
+                true
+            }
+            None => false,
+        }
+    }
+    pub fn clear(&mut self) {
         let mut i = 0;
-        while i < self.items.len() {
-            if self.items[i] == *k { self.items.remove(i); return true; }
+        while i < self.slots.len() {
+            self.slots[i] = None;
             i += 1;
         }
-        false
+        self.count = 0;
     }
 }
 
-/// Ordered map: association list kept sorted by key.
+// ---------------------------------------------------------------- BTreeMap (ascending iteration)
 #[derive(Clone)]
-pub struct BTreeMap<K, V> { items: Vec<(K, V)> }
-impl<K, V> Default for BTreeMap<K, V> { fn default() -> Self { Self { items: Vec::new() } } }
-impl<K: Ord, V> BTreeMap<K, V> {
-    pub fn new() -> Self { Self { items: Vec::new() } }
-    pub fn len(&self) -> usize { self.items.len() }
-    fn pos(&self, k: &K) -> Result<usize, usize> {
+pub struct BTreeMap<K, V> {
+    inner: HashMap<K, V>,
+}
+impl<K, V> Default for BTreeMap<K, V> {
+    fn default() -> Self {
+        Self { inner: HashMap::default() }
+    }
+}
+/// Ascending-order iterator by selection: each step yields the smallest key greater than the last.
+pub struct BIter<'a, K, V> {
+    map: &'a HashMap<K, V>,
+    last: Option<&'a K>,
+}
+impl<'a, K: Ord, V> Iterator for BIter<'a, K, V> {
+    type Item = (&'a K, &'a V);
+    fn next(&mut self) -> Option<(&'a K, &'a V)> {
+        let mut best: Option<(&'a K, &'a V)> = None;
         let mut i = 0;
-        while i < self.items.len() {
-            if self.items[i].0 == *k { return Ok(i); }
-            if self.items[i].0 > *k { return Err(i); }
+        while i < self.map.slots.len() {
+            if let Some((k, v)) = &self.map.slots[i] {
+                let after_last = match self.last {
+                    Some(l) => *k > *l,
+                    None => true,
+                };
+                let better = match best {
+                    Some((bk, _)) => *k < *bk,
+                    None => true,
+                };
+                if after_last && better {
+                    best = Some((k, v));
+                }
+            }
             i += 1;
         }
-        Err(i)
+        if let Some((k, _)) = best {
+            self.last = Some(k);
+        }
+        best
     }
-    pub fn get(&self, k: &K) -> Option<&V> { match self.pos(k) { Ok(i) => Some(&self.items[i].1), Err(_) => None } }
-    pub fn remove(&mut self, k: &K) -> Option<V> { match self.pos(k) { Ok(i) => Some(self.items.remove(i).1), Err(_) => None } }
-    pub fn iter(&self) -> impl Iterator<Item = (&K, &V)> { self.items.iter().map(|(k, v)| (k, v)) }
-    pub fn entry(&mut self, k: K) -> BEntry<'_, K, V> { BEntry { map: self, key: k } }
 }
-pub struct BEntry<'a, K, V> { map: &'a mut BTreeMap<K, V>, key: K }
-impl<'a, K: Ord, V> BEntry<'a, K, V> {
-    pub fn or_default(self) -> &'a mut V where V: Default {
-        let i = match self.map.pos(&self.key) {
-            Ok(i) => i,
-            Err(i) => { self.map.items.insert(i, (self.key, V::default())); i }
-        };
-        &mut self.map.items[i].1
+impl<K: Ord, V> BTreeMap<K, V> {
+    pub fn new() -> Self {
+        Self::default()
+    }
+    pub fn len(&self) -> usize {
+        self.inner.len()
+    }
+    pub fn is_empty(&self) -> bool {
+        self.inner.is_empty()
+    }
+    pub fn get(&self, k: &K) -> Option<&V> {
+        self.inner.get(k)
+    }
+    pub fn contains_key(&self, k: &K) -> bool {
+        self.inner.contains_key(k)
+    }
+    pub fn insert(&mut self, k: K, v: V) -> Option<V> {
+        self.inner.insert(k, v)
+    }
+    pub fn remove(&mut self, k: &K) -> Option<V> {
+        self.inner.remove(k)
+    }
+    pub fn iter(&self) -> BIter<'_, K, V> {
+        BIter { map: &self.inner, last: None }
+    }
+    pub fn entry(&mut self, k: K) -> Entry<'_, K, V> {
+        self.inner.entry(k)
     }
 }
